@@ -74,7 +74,7 @@ func runAccept(r *Run, v2 bool) int {
 		w.Count("strings_from_" + m.Src)
 		h := Hash(s)
 		for level := 0; level < 3; level++ {
-			mode := int((h >> uint(8*level)) % 4) // fresh constructor result / nil receiver / queried before Decode / by-value copy
+			mode := int((h >> uint(8*level)) % lib.NJudgedModes) // fresh constructor result / nil receiver / queried before Decode / by-value copy / embedded / re-plugged / preset / nil after a rejected nil decode
 			if checkAccept(w, prop, v2, level, s, mode) {
 				acc[level].Add(1)
 				w.Count("accepted_from_" + m.Src)
@@ -96,7 +96,7 @@ func runAccept(r *Run, v2 bool) int {
 				vs = join3("CVSS:"+spec.V3Versions[sv.Ver], toks3(&sv, lv, rng, true))
 			}
 			for level := lv; level < 3; level++ {
-				checkAccept(w, prop, v2, level, vs, int((h>>uint(3+level))%4))
+				checkAccept(w, prop, v2, level, vs, int((h>>uint(3+level))%lib.NJudgedModes))
 			}
 			w.Count("interleaved_valid_vectors")
 		}
@@ -221,7 +221,7 @@ func runC11(r *Run) int {
 			h := Hash(s)
 			distinct.add(s)
 			for level := 0; level < 3; level++ {
-				checkReject(w, st, v2, level, s, m, int((h>>uint(8*level))%4))
+				checkReject(w, st, v2, level, s, m, int((h>>uint(8*level))%lib.NJudgedModes))
 			}
 			if h%300007 == 0 {
 				_, d := refParse(v2, s, 1)
